@@ -35,26 +35,37 @@ where
         .read_u32()
         .await
         .map_err(|e| Error::ProcessSocksRequest("read ip", e))?;
-    let mut user_id = Vec::new();
-    reader
-        .read_until(0, &mut user_id)
-        .await
-        .map_err(|e| Error::ProcessSocksRequest("read user id", e))?;
-    // Remove the null byte
-    user_id.pop();
+    let _user_id = read_nul_terminated(reader, "read user id").await?;
     let rhost = if ip >> 24 == 0 {
-        let mut domain = Vec::new();
-        reader
-            .read_until(0, &mut domain)
-            .await
-            .map_err(|e| Error::ProcessSocksRequest("read domain", e))?;
-        // Remove the null byte
-        domain.pop();
-        domain
+        read_nul_terminated(reader, "read domain").await?
     } else {
         Ipv4Addr::from(ip).to_string().into()
     };
     Ok((command, rhost, rport))
+}
+
+/// Read a NUL-terminated field and return it without the terminator.
+///
+/// `read_until` also returns when the input ends, so the terminator has to be
+/// checked: a field cut short by EOF is an error, not a shorter field.
+#[inline]
+async fn read_nul_terminated<R>(reader: &mut R, what: &'static str) -> Result<Vec<u8>, Error>
+where
+    R: AsyncBufRead + Unpin,
+{
+    let mut field = Vec::new();
+    reader
+        .read_until(0, &mut field)
+        .await
+        .map_err(|e| Error::ProcessSocksRequest(what, e))?;
+    // Remove the null byte
+    if field.pop() != Some(0) {
+        return Err(Error::ProcessSocksRequest(
+            what,
+            std::io::ErrorKind::UnexpectedEof.into(),
+        ));
+    }
+    Ok(field)
 }
 
 /// Write a SOCKS4/a response to the given writer.
